@@ -1,10 +1,13 @@
 """C01 — problem evaluations are faithful, memoized and recorded in physical space.
 
-Correspondence: request histories (value/Jacobian, repeated points, Jacobian before value) on a
-preprocessed OptimizationProblem with call-logging original callables are compared, after every
-request, with the Lean model (Driver/C01.lean): returned value, whole database (ordered), call log.
+Correspondence: the design space is built through a history of public edits (harness/c01_space.py),
+then request histories (value/Jacobian, repeated points, Jacobian before value, several entry
+points) on a preprocessed OptimizationProblem with call-logging original callables are compared,
+after every request, with the Lean model (Driver/C01.lean): returned value, whole database
+(ordered), call log.
 Oracle: `Fraction` re-evaluation of the user's polynomial at the independently computed physical
-point, database scan, call-log growth.
+point (bounds/types/normalization policy from the reference semantics of the edits), database scan,
+call-log growth.
 """
 
 from __future__ import annotations
@@ -21,61 +24,68 @@ from harness.common import F
 from harness.common import Result
 from harness.common import rat
 from harness.common import rats
-from harness.c02 import olist
+from harness.c01_space import MUTATING
+from harness.c01_space import SPARSE_FORMATS
+from harness.c01_space import EditRejected
+from harness.c01_space import build_space
+from harness.c01_space import gen_hist
+from harness.c01_space import hist_of_vars
+from harness.c01_space import model_lines
+from harness.c01_space import shadow_of
+from harness.c01_space import to_container
+from harness.c02 import Shadow
+from harness.c02 import apply_shadow
 from harness.c02 import round_half_even
-from harness.c02 import to_np_bound
-from harness.c02 import varspec
+from harness.c02 import valid_line
 
 PID = "C01"
 TRUSTED_EXTRA = (
     "C01: the original functions are integer-coefficient polynomials (degree <= 2) evaluated at dyadic points: float evaluation is exact",
+    "C01: every finite range ub-lb of a generated design space is 0 or a power of two (also after the bound edits), so scaling by the range and by its inverse is exact",
     "C01: approximated derivatives (finite differences / complex step) are not modelled here (accuracy: C16); NaN propagation inside user functions is not modelled",
 )
 
 # --------------------------------------------------------------------------- case generation
-# case = {"vars": [[name,is_int,lb,ub]...] (strings), "cfg": [norm,db,storejac,round],
-#         "fns": {name: {"rows": [[c,[a],[q]]...], "linear": bool, "sparse": bool, "kind": "obj|cstr|obs"}},
-#         "reqs": [[name, "val"|"jac", [x]]...]}
+# case = {"hist": [C02 edit lines + "problem" marker + query lines]   (legacy: "vars": [[name,is_int,lb,ub]...]),
+#         "cfg": [norm,db,storejac,round,support_sparse_jacobian],
+#         "fns": {name: {"rows": [[c,[a],[q]]...], "linear": bool, "sparse": False|<scipy class name>, "flat": bool,
+#                        "kind": "obj|cstr|obs"}},
+#         "reqs": [[name, "val"|"jac", [x], via]...], "reuse_array": bool}
+
+INT_OFFSETS = [Fraction(s * k, 8) for k in range(1, 8) for s in (1, -1)]
 
 
-def gen_space(rng):
-    vars_ = []
-    names = rng.sample(["x", "yy", "z_1", "ab"], rng.pick([1, 2, 2, 3]))
-    for n in names:
-        is_int = rng.chance(0.3)
-        size = rng.pick([1, 1, 2])
-        lb, ub = [], []
-        for _ in range(size):
-            k = rng.random()
-            l = Fraction(rng.randint(-4, 4)) if is_int else Fraction(rng.randint(-16, 16), 4)
-            rg = rng.pick([1, 2, 4, 8]) if is_int else rng.pick([Fraction(1, 2), 1, 2, 4])
-            if k < 0.12:
-                lb.append(None), ub.append(l + rg)
-            elif k < 0.24:
-                lb.append(l), ub.append(None)
-            elif k < 0.3:
-                lb.append(None), ub.append(None)
-            elif k < 0.42:
-                lb.append(l), ub.append(l)  # equal bounds: inert normalized coordinate
-            else:
-                lb.append(l), ub.append(l + rg)
-        vars_.append([n, is_int, olist(lb), olist(ub)])
-    return vars_
+def num(t) -> str:
+    """Canonical string of an implementation number; non-finite values never equal an expected value."""
+    t = float(np.real(t))
+    return rat(t) if math.isfinite(t) else repr(t)
 
 
-def space_arrays(case):
-    lb, ub, ints = [], [], []
-    for n, is_int, l, u in case["vars"]:
-        ls = [None if t == "_" else Fraction(t) for t in l.split(",")]
-        us = [None if t == "_" else Fraction(t) for t in u.split(",")]
-        lb += ls
-        ub += us
-        ints += [is_int] * len(ls)
-    return lb, ub, ints
+def pfrac(x) -> list:
+    return [F(float(t)) if math.isfinite(float(t)) else float(t) for t in x]
+
+
+def prats(p) -> str:
+    return ",".join(rat(t) if isinstance(t, Fraction) else repr(t) for t in p) or "[]"
+
+
+def case_hist(case) -> list[str]:
+    return case["hist"] if "hist" in case else hist_of_vars(case["vars"])
+
+
+def case_cfg(case) -> list[bool]:
+    c = [bool(b) for b in case["cfg"]]
+    return c + [False] * (5 - len(c))
+
+
+def space_info(case):
+    """(lb, ub, integer mask, normalisable mask, shadow) of the design space the edits lead to."""
+    sh = shadow_of(case_hist(case))
+    return sh.flat("lb"), sh.flat("ub"), sh.int_mask(), sh.norm_mask(), sh
 
 
 def gen_fn(rng, dim, linear):
-    m = rng.pick([1, 1, 2, 3])
+    m = rng.pick([1, 1, 2, 3, 4])
     rows = []
     for _ in range(m):
         c = rat(Fraction(rng.randint(-6, 6), 2))
@@ -85,63 +95,100 @@ def gen_fn(rng, dim, linear):
     return rows
 
 
+def caller_coords(xs, lb, ub, mask, norm):
+    """Caller coordinates (normalized on the normalisable components when `norm`) of a physical point."""
+    out = []
+    for xi, l, u, nm in zip(xs, lb, ub, mask):
+        if norm and nm:
+            out.append((xi - l) / (u - l) if u != l else Fraction(0))
+        else:
+            out.append(xi)
+    return out
+
+
+def dyadic(xs) -> bool:
+    return not any(c.denominator & (c.denominator - 1) for c in xs)
+
+
 def gen_case(rng) -> dict[str, Any]:
-    vars_ = gen_space(rng)
-    case: dict[str, Any] = {"vars": vars_}
-    lb, ub, ints = space_arrays(case)
+    hist, tags = gen_hist(rng)
+    case: dict[str, Any] = {"hist": hist, "tags": tags}
+    lb, ub, ints, mask, sh = space_info(case)
     dim = len(lb)
-    cfg = [rng.chance(0.55), rng.chance(0.85), rng.chance(0.7), rng.chance(0.6)]
+    cfg = [rng.chance(0.6), rng.chance(0.85), rng.chance(0.7), rng.chance(0.6), rng.chance(0.2)]
     case["cfg"] = [int(b) for b in cfg]
     fns = {}
     for name, kind in (("f", "obj"), ("g", "cstr"), ("o", "obs")):
         linear = rng.chance(0.35)
-        fns[name] = {"rows": gen_fn(rng, dim, linear), "linear": linear, "sparse": (not linear) and rng.chance(0.25), "kind": kind}
+        rows = gen_fn(rng, dim, linear)
+        sparse = rng.pick(SPARSE_FORMATS) if rng.chance(0.45) else False
+        flat = len(rows) == 1 and not sparse and rng.chance(0.5)
+        fns[name] = {"rows": rows, "linear": linear, "sparse": sparse, "flat": flat, "kind": kind}
     case["fns"] = fns
-    normalized, _, _, rnd = cfg
-    has_int = any(ints)
+    normalized, _, _, rnd, _ = cfg
     pts = []
 
     def gen_point():
         x = []
-        for l, u, it in zip(lb, ub, ints):
-            normalisable = (not it) and l is not None and u is not None
-            if normalized and normalisable:
-                x.append(Fraction(rng.randint(0, 8), 8))
+        for l, u, it, nm in zip(lb, ub, ints, mask):
+            if normalized and nm:
+                if not it:
+                    x.append(Fraction(rng.randint(0, 8), 8))
+                elif rnd:
+                    # normalized integer component (integer normalization enabled): any dyadic coordinate
+                    x.append(Fraction(rng.randint(0, 16), 16))
+                else:
+                    rg = u - l
+                    x.append(Fraction(rng.randint(0, int(rg)), int(rg)) if rg > 0 else Fraction(rng.randint(0, 8), 8))
             else:
                 lo = l if l is not None else ((u - 4) if u is not None else Fraction(-2))
                 hi = u if u is not None else lo + 4
                 if it:
                     v = Fraction(rng.randint(math.ceil(lo), math.floor(hi)))
-                    # off-grid integer components force rounding: only meaningful when rounding is requested
-                    if rnd and normalized and rng.chance(0.4) and lo < hi:
-                        v = min(max(v + rng.pick([Fraction(1, 4), Fraction(-1, 4), Fraction(3, 8)]), lo), hi)
+                    # off-grid integer components force rounding: only meaningful when rounding is requested;
+                    # fractional parts on both sides of 1/2 (and 1/2 itself), positive and negative values
+                    if rnd and normalized and rng.chance(0.6) and lo < hi:
+                        v = min(max(v + rng.pick(INT_OFFSETS), lo), hi)
                     x.append(v)
                 else:
                     x.append(lo + (hi - lo) * Fraction(rng.randint(0, 8), 8))
         return x
 
+    cur = None
+    if sh.has_value():
+        cur = caller_coords(sh.flat("value"), lb, ub, mask, normalized)
+        if not dyadic(cur):
+            cur = None
+    vias = ["direct", "direct", "direct", "func", "ef-norm", "ef-phys"]
     reqs = []
     for _ in range(rng.pick([1, 3, 6, 10, 16, 24])):
-        if pts and rng.chance(0.4):
+        via = rng.pick(vias)
+        if cur is not None and rng.chance(0.12):
+            x, via = cur, "ef-cur"
+        elif pts and rng.chance(0.4):
             x = rng.pick(pts)
         else:
             x = gen_point()
             pts.append(x)
-        # entry point: the function itself, or EvaluationProblem.evaluate_functions with the design
-        # vector given in normalized ("ef-norm") or physical ("ef-phys") coordinates
-        reqs.append([rng.pick(["f", "f", "g", "o"]), rng.pick(["val", "val", "jac"]), [rat(t) for t in x],
-                     rng.pick(["direct", "direct", "ef-norm", "ef-phys"])])
+        # entry point: the function itself (evaluate/jac, or the func pointer), or
+        # EvaluationProblem.evaluate_functions with the design vector given in normalized ("ef-norm") or
+        # physical ("ef-phys") coordinates, or taken from the current value of the design space ("ef-cur")
+        reqs.append([rng.pick(["f", "f", "g", "o"]), rng.pick(["val", "val", "jac"]), [rat(t) for t in x], via])
     case["reqs"] = reqs
     case["reuse_array"] = rng.chance(0.5)
-    del has_int
     return case
 
 
+FMT_MODEL = {"csr_array": "csr", "csr_matrix": "csr", "lil_array": "csr", "csc_array": "csc", "csc_matrix": "csc",
+             "coo_array": "coo", "coo_matrix": "coo", True: "csr"}
+
+
 def case_lines(case) -> list[str]:
-    lines = ["ds " + " ".join(f"{n}:{'i' if it else 'f'}:{l}:{u}:_" for n, it, l, u in case["vars"])]
-    lines.append("cfg " + " ".join(str(b) for b in case["cfg"]))
+    lines = model_lines(case_hist(case))
+    lines.append("cfg " + " ".join(str(int(b)) for b in case_cfg(case)))
     for name, fn in case["fns"].items():
-        lines.append(f"fn {name} " + "|".join(f"{c}:{','.join(map(str, a))}:{','.join(map(str, q))}" for c, a, q in fn["rows"]))
+        fmt = FMT_MODEL.get(fn.get("sparse") or "dense", "dense")
+        lines.append(f"fn {name} " + "|".join(f"{c}:{','.join(map(str, a))}:{','.join(map(str, q))}" for c, a, q in fn["rows"]) + " " + fmt)
     for name, kind, x, *_ in case["reqs"]:
         lines.append(f"{kind} {name} {','.join(x)}")
     return lines
@@ -153,122 +200,104 @@ def case_lines(case) -> list[str]:
 class Logged:
     """The user's original callables, logging every call with the point it receives."""
 
-    def __init__(self, name, rows, log, sparse):
-        self.name, self.rows, self.log, self.sparse = name, rows, log, sparse
+    def __init__(self, name, rows, log, sparse, flat=False):
+        self.name, self.rows, self.log, self.sparse, self.flat = name, rows, log, sparse, flat
         self.c = np.array([float(Fraction(r[0])) for r in rows])
         self.a = np.array([[float(Fraction(t)) for t in r[1]] for r in rows])
         self.q = np.array([[float(Fraction(t)) for t in r[2]] for r in rows])
 
     def func(self, x):
         x = np.asarray(x, dtype=float)
-        self.log.append((self.name, "v", [F(t) for t in x]))
-        return self.c + self.a @ x + self.q @ (x * x)
+        self.log.append((self.name, "v", pfrac(x)))
+        out = self.c + self.a @ x + self.q @ (x * x)
+        return float(out[0]) if self.flat else out
 
     def jac(self, x):
         x = np.asarray(x, dtype=float)
-        self.log.append((self.name, "j", [F(t) for t in x]))
+        self.log.append((self.name, "j", pfrac(x)))
         j = self.a + 2.0 * self.q * x
-        if self.sparse:
-            from scipy.sparse import csr_array
-
-            return csr_array(j)
-        return j
+        if self.flat:
+            return j[0]
+        return to_container(j, self.sparse)
 
 
 def build_problem(case):
-    from gemseo.algos.design_space import DesignSpace
     from gemseo.algos.optimization_problem import OptimizationProblem
     from gemseo.core.mdo_functions.mdo_function import MDOFunction
     from gemseo.core.mdo_functions.mdo_linear_function import MDOLinearFunction
 
-    ds = DesignSpace()
-    for n, is_int, l, u in case["vars"]:
-        lb = [None if t == "_" else Fraction(t) for t in l.split(",")]
-        ub = [None if t == "_" else Fraction(t) for t in u.split(",")]
-        ds.add_variable(n, size=len(lb), type_="integer" if is_int else "float",
-                        lower_bound=to_np_bound(lb, True), upper_bound=to_np_bound(ub, False))
-    pb = OptimizationProblem(ds)
+    pb = build_space(case_hist(case), OptimizationProblem)
     log: list = []
     for name, fn in case["fns"].items():
-        lg = Logged(name, fn["rows"], log, fn["sparse"])
+        lg = Logged(name, fn["rows"], log, fn.get("sparse"), fn.get("flat", False))
         if fn["linear"]:
-            base = MDOLinearFunction(lg.a, name, value_at_zero=lg.c)
-            # log the calls of the linear function as well (wrap its pointers)
-            f0, j0 = base.func, base.jac
-
-            def f_log(x, f0=f0, name=name):
-                log.append((name, "v", [F(t) for t in np.asarray(x, dtype=float)]))
-                return f0(x)
-
-            def j_log(x, j0=j0, name=name):
-                log.append((name, "j", [F(t) for t in np.asarray(x, dtype=float)]))
-                return j0(x)
-
-            mf = base
-            mf_logged = (f_log, j_log)
+            coeffs = lg.a[0] if fn.get("flat") else to_container(lg.a, fn.get("sparse"))
+            mf = MDOLinearFunction(coeffs, name, value_at_zero=lg.c)
         else:
             mf = MDOFunction(lg.func, name, jac=lg.jac)
-            mf_logged = None
         if fn["kind"] == "obj":
             pb.objective = mf
         elif fn["kind"] == "cstr":
             pb.add_constraint(mf, constraint_type=MDOFunction.ConstraintType.INEQ)
         else:
             pb.add_observable(mf)
-        fn["_logged"] = mf_logged
-    norm, db, sj, rnd = (bool(b) for b in case["cfg"])
-    pb.preprocess_functions(is_function_input_normalized=norm, use_database=db, round_ints=rnd, store_jacobian=sj)
+    norm, db, sj, rnd, ssj = case_cfg(case)
+    pb.preprocess_functions(is_function_input_normalized=norm, use_database=db, round_ints=rnd, store_jacobian=sj,
+                            support_sparse_jacobian=ssj)
     fmap = {"f": pb.objective, "g": pb.constraints[0], "o": pb.observables[0]}
     return pb, fmap, log
 
 
 def fmt_mat(m) -> str:
-    m = np.asarray(m.todense() if hasattr(m, "todense") else m, dtype=float)
-    m = np.atleast_2d(m)
-    return "|".join(",".join(rat(float(t)) for t in np.asarray(r).ravel()) for r in m) if m.size else "[]"
+    if hasattr(m, "toarray"):
+        m = m.toarray()
+    m = np.atleast_2d(np.asarray(m, dtype=float))
+    return "|".join(",".join(num(t) for t in np.asarray(r).ravel()) for r in m) if m.size else "[]"
 
 
 def dump_db(pb) -> str:
     ents = []
     for x, outs in pb.database.items():
-        key = ",".join(rat(float(t)) for t in x.unwrap())
+        key = ",".join(num(t) for t in x.unwrap())
         parts = []
         for n, v in outs.items():
             if n.startswith("@"):
                 parts.append(f"{n}={fmt_mat(v)}")
             else:
-                parts.append(f"{n}=" + ",".join(rat(float(t)) for t in np.atleast_1d(v)))
+                parts.append(f"{n}=" + ",".join(num(t) for t in np.atleast_1d(v)))
         ents.append(key + ">" + ("&".join(parts) or "[]"))
     return ";".join(ents) or "[]"
 
 
 def run_impl(case):
     """Return the list of answers (one per request) + raw observations for the oracle."""
-    pb, fmap, log = build_problem(case)
+    try:
+        pb, fmap, log = build_problem(case)
+    except EditRejected as e:
+        return ["X:edit-rejected"], [{"edit_rejected": str(e)}], set()
     linear_fns = {n for n, fn in case["fns"].items() if fn["linear"]}
     answers, obs = [], []
     # callers commonly reuse ONE array object and update it in place between requests
     reuse = bool(case.get("reuse_array", False))
     buf = None
-    lbs, ubs, ints_ = space_arrays(case)
-    norm_cfg = bool(case["cfg"][0])
+    lbs, ubs, ints_, mask, _sh = space_info(case)
+    norm_cfg = case_cfg(case)[0]
     for name, kind, x, *rest in case["reqs"]:
         via = rest[0] if rest else "direct"
         xa = np.array([float(Fraction(t)) for t in x])
-        if via != "direct":
+        if via in ("ef-norm", "ef-phys"):
             # same request through evaluate_functions, coordinates converted exactly by the harness
             xs = [Fraction(t) for t in x]
             want_norm = via == "ef-norm"
             conv = []
-            for xi, l, u, it in zip(xs, lbs, ubs, ints_):
-                normalisable = (not it) and l is not None and u is not None
-                if not normalisable or want_norm == norm_cfg:
+            for xi, l, u, nm in zip(xs, lbs, ubs, mask):
+                if not nm or want_norm == norm_cfg:
                     conv.append(xi)
                 elif norm_cfg:  # x is normalized, give the physical coordinate
                     conv.append(l + xi * (u - l))
                 else:  # x is physical, give the normalized coordinate
                     conv.append((xi - l) / (u - l) if u != l else Fraction(0))
-            if any(c.denominator & (c.denominator - 1) for c in conv):
+            if not dyadic(conv):
                 via = "direct"  # not dyadic: keep the exact stream
             else:
                 xa = np.array([float(c) for c in conv])
@@ -281,20 +310,24 @@ def run_impl(case):
         x_before = xa.copy()
         n0 = len(log)
         try:
-            if via != "direct":
+            if via.startswith("ef-"):
                 pb.check_bounds = False
+                if via == "ef-cur":
+                    dv, dv_norm = None, norm_cfg
+                else:
+                    dv, dv_norm = xa, via == "ef-norm"
                 outs, jacs = pb.evaluate_functions(
-                    design_vector=xa, design_vector_is_normalized=(via == "ef-norm"),
+                    design_vector=dv, design_vector_is_normalized=dv_norm,
                     output_functions=[fmap[name]] if kind == "val" else None,
                     jacobian_functions=[fmap[name]] if kind == "jac" else None,
                 )
                 if kind == "val":
-                    o = ",".join(rat(float(t)) for t in np.atleast_1d(outs[name]))
+                    o = ",".join(num(t) for t in np.atleast_1d(outs[name]))
                 else:
                     o = fmt_mat(jacs[name])
             elif kind == "val":
-                out = fmap[name].evaluate(xa)
-                o = ",".join(rat(float(t)) for t in np.atleast_1d(out))
+                out = fmap[name].func(xa) if via == "func" else fmap[name].evaluate(xa)
+                o = ",".join(num(t) for t in np.atleast_1d(out))
             else:
                 out = fmap[name].jac(xa)
                 o = fmt_mat(out)
@@ -306,7 +339,7 @@ def run_impl(case):
             obs.append({"exc": f"the request {kind} {name} modified the caller's array in place: {x_before} -> {xa}"})
             answers.append("X:arg-mutated")
             break
-        calls = ";".join(f"{n}:{k}:{rats(p)}" for n, k, p in log) or "[]"
+        calls = ";".join(f"{n}:{k}:{prats(p)}" for n, k, p in log) or "[]"
         answers.append(f"out={o} db={dump_db(pb)} calls={calls}")
         obs.append({"out": o, "new_calls": log[n0:], "db": dump_db(pb), "n_calls_total": len(log)})
     return answers, obs, linear_fns
@@ -315,24 +348,36 @@ def run_impl(case):
 # --------------------------------------------------------------------------- oracle
 
 
+def make_phys(case):
+    """The physical point of a caller's point, from the property text: x = lb + x_n (ub - lb) on the
+    components that are normalized (float - or integer when integer normalization is enabled - bounded
+    on both sides), x = x_n elsewhere; integer components rounded to the nearest integer (half to even)."""
+    lb, ub, ints, mask, _ = space_info(case)
+    norm, _, _, rnd, _ = case_cfg(case)
+
+    def raw(x):
+        return [l + xi * (u - l) if (norm and nm) else xi for xi, l, u, nm in zip(x, lb, ub, mask)]
+
+    def phys(x):
+        return [round_half_even(xi) if it and (norm or rnd) else xi for xi, it in zip(raw(x), ints)]
+
+    def scale(i):
+        return ub[i] - lb[i] if (norm and mask[i]) else Fraction(1)
+
+    return raw, phys, scale
+
+
 def oracle(case, answers, obs, linear_fns) -> list[tuple[int, str, str]]:
     """Property clauses, from the property text, on the implementation's observations."""
     bad = []
-    lb, ub, ints = space_arrays(case)
-    norm, db, sj, rnd = (bool(b) for b in case["cfg"])
+    if obs and "edit_rejected" in obs[0]:
+        return bad
+    _, _, ints, _, _ = space_info(case)
+    norm, db, sj, rnd, _ = case_cfg(case)
     has_int = any(ints)
+    _, phys, scale = make_phys(case)
     recorded: dict[tuple, str] = {}  # (phys point, name, kind) -> first answer
     db_keys: list[tuple] = []
-
-    def phys(x):
-        p = []
-        for xi, l, u, it in zip(x, lb, ub, ints):
-            if norm and (not it) and l is not None and u is not None:
-                xi = l + xi * (u - l)
-            if it and (norm or rnd):
-                xi = round_half_even(xi)
-            p.append(xi)
-        return p
 
     def fval(name, p):
         return [Fraction(c) + sum(Fraction(ai) * pi for ai, pi in zip(a, p)) + sum(Fraction(qi) * pi * pi for qi, pi in zip(q, p))
@@ -340,11 +385,6 @@ def oracle(case, answers, obs, linear_fns) -> list[tuple[int, str, str]]:
 
     def fjac(name, p):
         return [[Fraction(ai) + 2 * Fraction(qi) * pi for ai, qi, pi in zip(a, q, p)] for c, a, q in case["fns"][name]["rows"]]
-
-    def scale(i):
-        if norm and (not ints[i]) and lb[i] is not None and ub[i] is not None:
-            return ub[i] - lb[i]
-        return Fraction(1)
 
     for i, ((name, kind, x, *_), ans, ob) in enumerate(zip(case["reqs"], answers, obs)):
         if "exc" in ob:
@@ -363,7 +403,7 @@ def oracle(case, answers, obs, linear_fns) -> list[tuple[int, str, str]]:
         is_lin_norm = name in linear_fns and norm and not (rnd and has_int)
         for cn, ck, cp in ob["new_calls"]:
             if not is_lin_norm and (cn != name or cp != p):
-                bad.append((i, "call-at-wrong-point", f"original {cn} called at {rats(cp)} for a request at physical point {rats(p)}"))
+                bad.append((i, "call-at-wrong-point", f"original {cn} called at {prats(cp)} for a request at physical point {rats(p)}"))
         if db:
             key = tuple(p)
             tag = (key, name, kind)
@@ -423,16 +463,43 @@ def parse_db(s: str):
     return out
 
 
+def hist_valid(hist) -> bool:
+    """Every edit of the history is a valid public edit (inside C02's quantifier) and the space is not empty."""
+    sh = Shadow()
+    for line in hist:
+        if line == "problem":
+            continue
+        if not valid_line(sh, line):
+            return False
+        if line.split()[0] in MUTATING:
+            apply_shadow(sh, line)
+    return bool(sh.vars)
+
+
 def in_scope(case) -> bool:
-    """Requests inside the property's quantifier: integer components are on-grid unless rounding
-    is requested in normalized mode (the only configuration where the property fixes their physical point)."""
-    lb, ub, ints = space_arrays(case)
-    norm, _, _, rnd = (bool(b) for b in case["cfg"])
-    for _, _, x, *_r in case["reqs"]:
+    """Requests inside the property's quantifier: a valid design space; points of the right size whose
+    physical image lies within the bounds; integer components on-grid unless rounding is requested in
+    normalized mode (the only configuration where the property fixes their physical point); the
+    current-value entry point only with the current value."""
+    if not hist_valid(case_hist(case)):
+        return False
+    lb, ub, ints, mask, sh = space_info(case)
+    norm, _, _, rnd, _ = case_cfg(case)
+    raw, _, _ = make_phys(case)
+    for fn in case["fns"].values():
+        if any(len(a) != len(lb) or len(q) != len(lb) for _, a, q in fn["rows"]):
+            return False
+    for _, _, x, *r in case["reqs"]:
         if len(x) != len(lb):
             return False
-        for t, it in zip(x, ints):
-            if it and Fraction(t).denominator != 1 and not (norm and rnd):
+        xs = [Fraction(t) for t in x]
+        for t, l, u, it in zip(raw(xs), lb, ub, ints):
+            if it and t.denominator != 1 and not (norm and rnd):
+                return False
+            if (l is not None and t < l) or (u is not None and t > u):
+                return False
+        if r and r[0] == "ef-cur":
+            if not sh.has_value() or caller_coords(sh.flat("value"), lb, ub, mask, norm) != xs:
                 return False
     return True
 
@@ -451,18 +518,48 @@ def filter_calls(ans: str, drop: set) -> str:
 # --------------------------------------------------------------------------- run
 
 
-def check_case(res: Result, case, model_answers, in_scope=True):
-    answers, obs, linear_fns = run_impl(case)
-    res.evaluations += 1
-    res.count("cfg=" + "".join(str(b) for b in case["cfg"]))
+def histogram(res: Result, case):
+    cfg = case_cfg(case)
+    res.count("cfg=" + "".join(str(int(b)) for b in cfg[:4]))
+    res.count("support_sparse_jacobian=" + str(int(cfg[4])))
     res.count(f"reqs<={(len(case['reqs']) // 8 + 1) * 8}")
     res.count("caller-reuses-array" if case.get("reuse_array") else "fresh-arrays")
+    for t in case.get("tags", ["space:legacy-add-only"]):
+        res.count(t)
+    lb, ub, ints, mask, _ = space_info(case)
+    res.count(f"dim={len(lb)}")
+    if any(l is not None and l == u for l, u in zip(lb, ub)):
+        res.count("space-has-equal-bounds")
+    if any((l is None) != (u is None) for l, u in zip(lb, ub)):
+        res.count("space-has-half-bounded-component")
+    raw, _, _ = make_phys(case)
     for r in case["reqs"]:
         res.count("via:" + (r[3] if len(r) > 3 else "direct"))
+        for t, it in zip(raw([Fraction(c) for c in r[2]]), ints):
+            if it and t.denominator != 1:
+                fr = t - math.floor(t)
+                res.count("int-component-fraction" + ("<1/2" if fr < Fraction(1, 2) else "=1/2" if fr == Fraction(1, 2) else ">1/2")
+                          + ("(negative)" if t < 0 else "(positive)"))
     for fn in case["fns"].values():
-        res.count("fn:" + ("linear" if fn["linear"] else "sparse" if fn["sparse"] else "dense"))
+        m = len(fn["rows"])
+        kind = "linear" if fn["linear"] else "nonlinear"
+        res.count(f"fn:{kind}:" + (fn.get("sparse") if isinstance(fn.get("sparse"), str) else "csr_array" if fn.get("sparse") else
+                                     "dense-1d" if fn.get("flat") else "dense"))
+        res.count("fn:outputs" + ("<" if m < len(lb) else "=" if m == len(lb) else ">") + "inputs")
+
+
+def check_case(res: Result, case, model_answers):
+    answers, obs, linear_fns = run_impl(case)
+    res.evaluations += 1
+    histogram(res, case)
+    if obs and "edit_rejected" in obs[0]:
+        res.disagreements += 1
+        res.violate("correspondence", "space-edit-rejected",
+                    f"a valid public edit of the design space was rejected by the implementation: {obs[0]['edit_rejected']}",
+                    {"case": strip(case), "correspondence": "Driver/C01.lean (dsop) / C02 edits"})
+        return
     if len(case["reqs"]) >= 3:
-        res.nontrivial(json.dumps([case["vars"], case["cfg"], case["reqs"]]))
+        res.nontrivial(json.dumps([case_hist(case), case["cfg"], case["reqs"]]))
     bad = oracle(case, answers, obs, linear_fns)
     for i, key, msg in bad:
         small = shrink_case(case, key, i)
@@ -489,13 +586,27 @@ def check_case(res: Result, case, model_answers, in_scope=True):
             break
     else:
         res.traces_validated += 1
-    res.sample({"lines": case_lines(case)[:8], "last_answer": answers[-1][:300] if answers else None}, cap=3)
+    res.sample({"lines": case_lines(case)[:10], "last_answer": answers[-1][:300] if answers else None}, cap=3)
 
 
 def strip(case):
-    c = json.loads(json.dumps({k: v for k, v in case.items() if k != "fns"}))
+    c = json.loads(json.dumps({k: v for k, v in case.items() if k not in ("fns", "tags")}))
     c["fns"] = {n: {k: v for k, v in fn.items() if not k.startswith("_")} for n, fn in case["fns"].items()}
     return c
+
+
+DROPPABLE = ("setlb", "setub", "rename", "intnorm", "setvar", "setarr", "setdict", "initmissing", "probe", "view")
+
+
+def hist_drops(case):
+    """The same case with one dimension-preserving edit (or cache-filling query) of the space history dropped."""
+    hist = case_hist(case)
+    for j, line in enumerate(hist):
+        if line.split()[0] in DROPPABLE:
+            c = strip(case)
+            c.pop("vars", None)
+            c["hist"] = hist[:j] + hist[j + 1 :]
+            yield c
 
 
 def neighbours(case, i):
@@ -505,25 +616,41 @@ def neighbours(case, i):
         c["reqs"] = reqs[:j] + reqs[j + 1 : i + 1]
         if c["reqs"]:
             yield c
-    for b in (1, 2):
+    for b in (1, 2, 4):
         c = strip(case)
+        c["cfg"] = [int(x) for x in case_cfg(case)]
         c["cfg"][b] = 1 - c["cfg"][b]
         yield c
+    yield from hist_drops(case)
 
 
 def shrink_case(case, key, upto):
     base = strip(case)
     reqs = base["reqs"][: upto + 1]
 
-    def fails(sub):
-        c = dict(base)
-        c["reqs"] = sub
+    def fails_case(c):
         if not in_scope(c):
             return False
         a, o, l = run_impl(json.loads(json.dumps(c)))
         return any(k == key for _, k, _ in oracle(c, a, o, l))
 
+    def fails(sub):
+        c = dict(base)
+        c["reqs"] = sub
+        return fails_case(c)
+
     base["reqs"] = common.shrink_list(reqs, fails, budget=40)
+    # then the space history: drop edits / queries that are not needed for the failure
+    progress, budget = True, 20
+    while progress and budget > 0:
+        progress = False
+        for c in hist_drops(base):
+            budget -= 1
+            if fails_case(c):
+                base, progress = c, True
+                break
+            if budget <= 0:
+                break
     return base
 
 
@@ -546,17 +673,23 @@ def load_corpus():
 def run(ctx) -> Result:
     res = Result(PID)
     res.rule = (
-        "random design spaces (float/int, finite/infinite/equal bounds, sizes 1-2) x all preprocessing switches "
-        "(normalized, database, store_jacobian, round_ints) x objective/constraint/observable polynomial functions "
-        "(dense, sparse-Jacobian, MDOLinearFunction) x request histories (value/Jacobian interleaved, >=40% repeated points, "
-        "Jacobian before value, off-grid integers when rounding); compared after every request; non-trivial = >= 3 requests"
+        "design spaces built through edit histories (add with/without current value, bound setters changing the finiteness "
+        "of a bound in both directions, rename, remove+add, filter, filter_dimensions, integer-normalization toggle, current-value "
+        "setters; float/integer/all-integer, finite/infinite/equal bounds; queries filling the caches between edits or not; "
+        "problem created before or after the edits) x all preprocessing switches (normalized, database, store_jacobian, round_ints, "
+        "support_sparse_jacobian) x objective/constraint/observable polynomial functions (user Jacobian dense 2-D / 1-D gradient / "
+        "scipy CSR, CSC, COO, LIL arrays and matrices; MDOLinearFunction with dense / 1-D / sparse coefficients; 1-4 outputs) x request "
+        "histories (value/Jacobian interleaved, >=40% repeated points, Jacobian before value, off-grid integers with fractional parts "
+        "on both sides of 1/2 when rounding; entry points evaluate/jac, func, evaluate_functions with normalized / physical / current "
+        "design vector); compared after every request; non-trivial = >= 3 requests"
     )
     res.assumptions = [
         "integer components are given on-grid unless rounding is requested in normalized mode (the property does not define the physical point of an off-grid integer without rounding)",
+        "design points lie within the bounds of the design space",
         "approximated derivatives are outside this check (C16)",
     ]
     rng = ctx.rng
-    n = 40000 if ctx.thorough else 1500
+    n = 8000 if ctx.thorough else 1600
     cases = load_corpus() + [gen_case(rng) for _ in range(n)]
     models = batch_model(cases)
     for c, m in zip(cases, models):
@@ -567,8 +700,12 @@ def run(ctx) -> Result:
 def replay(path: str) -> int:
     data = json.loads(open(path).read())
     case = data["replay"]["case"]
+    print("space history:", case_hist(case), " cfg:", case["cfg"])
     answers, obs, lin = run_impl(json.loads(json.dumps(case)))
     model = batch_model([case])[0]
+    if obs and "edit_rejected" in obs[0]:
+        print("the implementation rejected a valid edit:", obs[0]["edit_rejected"])
+        return 1
     for r, a, m in zip(case["reqs"], answers, model):
         print(">", r)
         print("  impl :", a)
